@@ -154,11 +154,47 @@ def tokens(prog, fn, side):
             elif tr == DES and item == "read_from":
                 kind, detail = "T", nested_type(prog, t)
         if kind is None:
+            # a private helper the stream is handed to (`read_length_prefixed(source)`, `write_header(target)`): its own grammar is spliced in
+            h = _stream_helper(prog, fn, t, side)
+            if h is not None:
+                kind, detail = "H", h
+        if kind is None:
             continue
         ctx = "loop" if in_loop(fn, b) else ("seq" if must_between(fn, None, [(b, T)], acc)[0] else "cond")
         toks.append((order.get(b, 10**6), kind, detail, ctx, b))
     toks.sort()
     return [(k, d, c, b) for _, k, d, c, b in toks]
+
+
+_helper_cache = {}
+
+
+def _stream_helper(prog, fn, t, side, depth=0):
+    """the workspace function called at t if it (transitively) performs reads/writes on a stream it receives, else None"""
+    f = t.get("fn") or {}
+    if f.get("trait") in (BW, BRD, SER, DES):
+        return None
+    res = f.get("resolved") or f.get("def")
+    h = prog.fns.get(res)
+    if h is None or h.crate == "examples" or h is fn or h.kind == "closure":
+        return None
+    key = (h.id, side)
+    if key not in _helper_cache:
+        _helper_cache[key] = False  # recursion guard
+        stream_arg = any(("ByteReader" in ty or "ByteWriter" in ty or ty.startswith("&mut R") or ty.startswith("&mut W") or ty in ("&mut R", "&mut W"))
+                         for ty in (h.get("inputs") or []))
+        has = False
+        if stream_arg and depth < 4:
+            for b2, t2 in h.calls():
+                f2 = t2.get("fn") or {}
+                if f2.get("trait") in ((BW, SER) if side == "w" else (BRD, DES)):
+                    has = True
+                    break
+                if _stream_helper(prog, h, t2, side, depth + 1) is not None:
+                    has = True
+                    break
+        _helper_cache[key] = has
+    return h if _helper_cache[key] else None
 
 
 PRIM = {"u8": ("fixed", 1), "bool": ("fixed", 1), "u16": ("fixed", 2), "u32": ("fixed", 4), "u64": ("fixed", 8), "u128": ("fixed", 16),
@@ -171,7 +207,13 @@ def path_sequences(prog, fn, side, max_paths=4000):
     from .guards import accept_nodes
     g = flow(fn)
     tokmap = {}
+    helpers = {}
     for k, d, c, b in tokens(prog, fn, side):
+        if k == "H":
+            alts = path_sequences(prog, d, side, max_paths)
+            mark = "loop" if c == "loop" else ""
+            helpers[b] = [tuple((kk, dd, (cc or mark)) for kk, dd, cc in alt) for alt in alts] or [()]
+            continue
         if k == "T" and d in PRIM:
             k, d = PRIM[d]
         if k == "T" and c == "loop":
@@ -193,8 +235,29 @@ def path_sequences(prog, fn, side, max_paths=4000):
     def dfs(b, seq, visited, first):
         if count[0] > max_paths:
             raise RuntimeError("too many paths")
+        if b in helpers and first:
+            alts = helpers[b]
+            if len(alts) > 1:
+                for alt in alts[1:]:
+                    dfs_after(b, seq + alt, visited)
+            seq = seq + alts[0]
         if b in tokmap and first:
             seq = seq + (tokmap[b],)
+        if b in acc:
+            out.add(seq)
+            count[0] += 1
+            return
+        for s in fn.succ[b]:
+            if s not in useful:
+                continue
+            c = visited.get(s, 0)
+            if c >= 2:
+                continue
+            nv = dict(visited)
+            nv[s] = c + 1
+            dfs(s, seq, nv, c == 0)
+    def dfs_after(b, seq, visited):
+        """continue from block b (its own tokens already appended)"""
         if b in acc:
             out.add(seq)
             count[0] += 1
